@@ -182,6 +182,7 @@ type FrameDecl struct {
 	IsCall   bool // callers K: ... instead of frame
 	IsArg    bool // argpolicy
 	IsElems  bool // frameelems [*]T: elements of slices of that type are never assigned in place
+	IsErrKind bool // errorkind T: errors created by this package are *T values (no bare fmt.Errorf / errors.New returned)
 	ArgIndex int
 	ArgLit   string
 }
@@ -226,7 +227,7 @@ type tok struct {
 var clauseKW = map[string]bool{
 	"requires": true, "ensures": true, "defines": true, "modifies": true, "loop": true, "invariant": true, "decreases": true,
 	"property": true, "wraps": true, "func": true, "pred": true, "pure": true, "trusted": true, "inline": true,
-	"frame": true, "callers": true, "type": true, "package": true, "nosafety": true, "note": true, "recursion": true, "ghost": true, "argpolicy": true, "ufunc": true, "abstract": true, "axiom": true, "purecalls": true, "nocallbacks": true, "callsite": true, "closure": true, "frameelems": true, "callback": true,
+	"frame": true, "callers": true, "type": true, "package": true, "nosafety": true, "note": true, "recursion": true, "ghost": true, "argpolicy": true, "ufunc": true, "abstract": true, "axiom": true, "purecalls": true, "nocallbacks": true, "callsite": true, "closure": true, "frameelems": true, "callback": true, "errorkind": true,
 }
 
 func lexSpec(lines []string, lineNos []int) ([]tok, error) {
@@ -893,6 +894,38 @@ func parseSpecFile(path string, defaultPkg string) (sf *SpecFile, err error) {
 				}
 			}
 			sf.Frames = append(sf.Frames, fd)
+		case "errorkind":
+			// errorkind T [property ...] - every error a function of this package creates and returns is a *T: no
+			// return statement hands out fmt.Errorf(...) without %w or errors.New(...) (callers tell parser errors,
+			// which are answered, from transport errors, which end the session, by this type)
+			fd := &FrameDecl{Pkg: sf.Pkg, Line: t.line, File: path, IsErrKind: true}
+			name := p.next().s
+			for p.accept(".") {
+				name += "." + p.next().s
+			}
+			fd.Comp = name
+			if p.isKW("unless") {
+				p.next()
+				p.expect(":")
+				for !p.atClauseStart() && !p.isKW("property") {
+					n := p.next().s
+					for p.isOp(".") {
+						n += p.next().s + p.next().s
+					}
+					fd.Funcs = append(fd.Funcs, n)
+					if !p.accept(",") {
+						break
+					}
+				}
+			}
+			if p.isKW("property") {
+				p.next()
+				for !p.atClauseStart() {
+					fd.Props = append(fd.Props, p.next().s)
+				}
+			}
+			sf.Frames = append(sf.Frames, fd)
+			cur = nil
 		case "frame", "callers":
 			fd := &FrameDecl{Pkg: sf.Pkg, Line: t.line, File: path, IsCall: t.s == "callers"}
 			name := p.next().s
